@@ -206,3 +206,46 @@ def op_run_stream(job):
 
 
 OPS = {k[3:]: v for k, v in list(globals().items()) if k.startswith('op_')}
+
+
+def op_rank_graph(job):
+    """Real get_combinations_from_columns + mixed_rank_graph on a frame, `batches` times with
+    the sampler counter persisting; ScheduledPool with an optional completion order."""
+    L.reset_globals()
+    out = []
+    cols = job['columns']
+    for b in range(job.get('batches', 1)):
+        args = L.make_args(**job.get('args', {}))
+        df = pd.DataFrame({c: job['frame'][c] for c in cols}, columns=cols)
+        combos = CR.get_combinations_from_columns(df.columns, args)
+        args = L.make_args(**job.get('args', {}))          # get_combinations may clamp the cap in place
+        log = []
+        pool = L.ScheduledPool(nodes=job.get('nodes', 1), completion=job.get('completion'), log=log)
+        if job.get('pool_kind') == 'real':
+            from pathos.multiprocessing import ProcessingPool
+            import time as _t
+            CR.time = type('T', (), {'sleep': staticmethod(lambda s: _t.sleep(0.01))})
+            pool = ProcessingPool(job.get('nodes', 1))
+        inject = job.get('perm_tasks')
+        if inject is not None:
+            target = [tuple(t) for t in inject]
+
+            class _Rnd:
+                @staticmethod
+                def shuffle(lst):
+                    if sorted(lst) == sorted(target):
+                        lst[:] = target
+            saved_random = CR.random
+            CR.random = _Rnd()
+        try:
+            res = CR.mixed_rank_graph(df, args, pool, L.Pbar())
+        finally:
+            if inject is not None:
+                CR.random = saved_random
+        out.append({'combos': [list(c) for c in combos],
+                    'trip': [[t[0], t[1], float(t[2])] for t in res.triplet_scores],
+                    'cap_after': int(args.combination_number_upper_bound)})
+    return out
+
+
+OPS = {k[3:]: v for k, v in list(globals().items()) if k.startswith('op_')}
